@@ -153,9 +153,15 @@ pub trait BlsSignatureProof:
     ) -> BlsResult<()> {
         if let Some(tt) = timeout_ms {
             let now = SystemTime::now();
-            let since = UNIX_EPOCH + Duration::from_millis(t);
-            let elapsed = now.duration_since(since).unwrap().as_millis() as u64;
-            if elapsed > tt {
+            // a timestamp that is not in the past (or not representable) is invalid
+            let since = UNIX_EPOCH
+                .checked_add(Duration::from_millis(t))
+                .ok_or(BlsError::InvalidProof)?;
+            let elapsed = now
+                .duration_since(since)
+                .map_err(|_| BlsError::InvalidProof)?
+                .as_millis();
+            if elapsed > tt as u128 {
                 return Err(BlsError::InvalidProof);
             }
         }
